@@ -24,7 +24,7 @@ manifest = {
     "hooks": {
         "guard": "cargo feature `verif` of the ord crate and of the mockcore crate (both off by default)",
         "enable": "the harness depends on ord by path with features = [\"verif\"], and on mockcore likewise (harness/Cargo.toml); every ./check rebuilds it from /repo's working tree",
-        "baseline_off_cmd": "cd /repo && cargo test --workspace --no-fail-fast --offline",
+        "baseline_off_cmd": "cd /repo && cargo test --workspace --no-fail-fast --offline -- --test-threads 8",
         "source_commits": HOOK_COMMITS,
         "add_only": True,
     },
